@@ -1,4 +1,4 @@
-    // @unit name=participant_create file=dds/src/dcps/dcps_domain_participant/participant_methods.rs unwind=3 unwindset=memcmp.0:18 loops=overflowing_pow:8,status_mask::StatusMask:15
+    // @unit name=participant_create file=dds/src/dcps/dcps_domain_participant/participant_methods.rs unwind=3 unwindset=memcmp.0:18 loops=overflowing_pow:8,status_mask::StatusMask:15,slice_contains:8
     // Child module of participant_methods.rs (C35, C36): representation invariant of the entity lists of a REAL
     // DcpsDomainParticipant (built with DcpsDomainParticipant::new: builtin publisher/subscriber and all builtin endpoints,
     // null transport, no-op runtime), checked as an inductive step from an ARBITRARY state satisfying the invariant:
@@ -420,5 +420,153 @@
         }
         kani::cover!(r.is_ok());
         kani::cover!(c == 65535);
+        core::mem::forget(p);
+    }
+
+    // ---------------------------------------------------------------- C36: deletion preconditions
+    fn mk_writer_in(p: &DcpsDomainParticipant, pk: u8, c: u16) -> UserDefinedDataWriter {
+        let h = endpoint_handle(p, pk, c, USER_DEFINED_WRITER_NO_KEY);
+        let prefix = Guid::from(*p.domain_participant.instance_handle.as_ref()).prefix();
+        let g = Guid::new(prefix, EntityId::new([pk, (c & 0xff) as u8, (c >> 8) as u8], USER_DEFINED_WRITER_NO_KEY));
+        UserDefinedDataWriter::new(h, RtpsStatefulWriter::new(g, 1344), String::from("t"), None, StatusMask::default(), DataWriterQos::const_default())
+    }
+
+    fn code_of(r: &DdsResult<()>) -> u8 {
+        match r { Ok(()) => 0, Err(DdsError::PreconditionNotMet(_)) => 1, Err(DdsError::AlreadyDeleted) => 2, Err(_) => 3 }
+    }
+
+    /// C36: a publisher that still contains a data writer cannot be deleted.  Participant with one publisher (arbitrary
+    /// key) holding one data writer: delete_user_defined_publisher returns PreconditionNotMet and changes nothing (the
+    /// publisher and its writer are still there); through a wrong participant handle it is PreconditionNotMet as well.
+    /// @props C36
+    /// @kind bounded
+    /// @tier thorough
+    /// @timeout 3000
+    /// @bounds 1 publisher, 1 data writer
+    /// @fn DcpsDomainParticipant::delete_user_defined_publisher
+    #[cfg_attr(kani, kani::proof)]
+    #[cfg_attr(kani, kani::stub(alloc::fmt::format, verif_support::fmt_format_stub))]
+    fn c36_delete_publisher_with_writer_is_refused() {
+        let mut p = mk_participant();
+        push_topic(&mut p);
+        let k1: u8 = kani::any();
+        let h1 = group_handle(&p, k1, USER_DEFINED_WRITER_GROUP);
+        p.domain_participant.user_defined_publisher_list.push(PublisherEntity::new(PublisherQos::const_default(), h1, Vec::new(), None, StatusMask::default()));
+        let w = mk_writer_in(&p, k1, 0);
+        p.domain_participant.user_defined_publisher_list[0].data_writer_list.push(w);
+        let right_parent: bool = kani::any();
+        let parent = if right_parent { p.domain_participant.instance_handle } else { h1 };
+        let r = p.delete_user_defined_publisher(&parent, &h1);
+        assert!(code_of(&r) == 1, "C36: a publisher that still contains a data writer cannot be deleted: PreconditionNotMet");
+        let l = &p.domain_participant.user_defined_publisher_list;
+        assert!(l.len() == 1 && l[0].instance_handle == h1 && l[0].data_writer_list.len() == 1, "C36: a refused deletion changes nothing");
+        core::mem::forget(r);
+        core::mem::forget(p);
+    }
+
+    /// C36: deleting empty publishers.  Participant with two empty publishers (arbitrary distinct keys): deleting the first
+    /// through a wrong participant handle is PreconditionNotMet and changes nothing; through the right one it is Ok and
+    /// exactly that publisher is gone; deleting it again is AlreadyDeleted and the other publisher is untouched.
+    /// @props C36
+    /// @kind bounded
+    /// @tier thorough
+    /// @timeout 3000
+    /// @bounds 2 publishers, no data writer
+    /// @fn DcpsDomainParticipant::delete_user_defined_publisher, DomainParticipantEntity::remove_publisher
+    #[cfg_attr(kani, kani::proof)]
+    #[cfg_attr(kani, kani::stub(alloc::fmt::format, verif_support::fmt_format_stub))]
+    fn c36_delete_empty_publisher_then_already_deleted() {
+        let mut p = mk_participant();
+        let k1: u8 = kani::any();
+        let k2: u8 = kani::any();
+        kani::assume(k1 != k2);
+        let h1 = group_handle(&p, k1, USER_DEFINED_WRITER_GROUP);
+        let h2 = group_handle(&p, k2, USER_DEFINED_WRITER_GROUP);
+        p.domain_participant.user_defined_publisher_list.push(PublisherEntity::new(PublisherQos::const_default(), h1, Vec::new(), None, StatusMask::default()));
+        p.domain_participant.user_defined_publisher_list.push(PublisherEntity::new(PublisherQos::const_default(), h2, Vec::new(), None, StatusMask::default()));
+        let ph = p.domain_participant.instance_handle;
+        let r0 = p.delete_user_defined_publisher(&h2, &h1);
+        assert!(code_of(&r0) == 1 && p.domain_participant.user_defined_publisher_list.len() == 2, "C36: deleting through another participant is PreconditionNotMet and changes nothing");
+        let r1 = p.delete_user_defined_publisher(&ph, &h1);
+        assert!(code_of(&r1) == 0, "C36: an empty publisher is deleted");
+        assert!(p.domain_participant.user_defined_publisher_list.len() == 1
+            && p.domain_participant.user_defined_publisher_list[0].instance_handle == h2, "C36: exactly the named publisher is removed");
+        let r2 = p.delete_user_defined_publisher(&ph, &h1);
+        assert!(code_of(&r2) == 2, "C36: deleting it again is AlreadyDeleted");
+        assert!(p.domain_participant.user_defined_publisher_list.len() == 1);
+        core::mem::forget(r0);
+        core::mem::forget(r1);
+        core::mem::forget(r2);
+        core::mem::forget(p);
+    }
+
+    fn mk_reader_in(p: &DcpsDomainParticipant, sk: u8, c: u16) -> UserDefinedDataReader {
+        let h = endpoint_handle(p, sk, c, USER_DEFINED_READER_NO_KEY);
+        let prefix = Guid::from(*p.domain_participant.instance_handle.as_ref()).prefix();
+        let g = Guid::new(prefix, EntityId::new([sk, (c & 0xff) as u8, (c >> 8) as u8], USER_DEFINED_READER_NO_KEY));
+        UserDefinedDataReader::new(h, DataReaderQos::const_default(), String::from("t"), None, StatusMask::default(),
+            RtpsStatefulReader::new(g, crate::transport::types::ReliabilityKind::BestEffort))
+    }
+
+    /// C36: a subscriber that still contains a data reader cannot be deleted: PreconditionNotMet and NOTHING changes - the
+    /// subscriber and its reader are still in the participant afterwards (a refused deletion must not remove first and
+    /// check later).
+    /// @props C36
+    /// @kind bounded
+    /// @tier thorough
+    /// @timeout 3000
+    /// @bounds 1 subscriber, 1 data reader
+    /// @fn DcpsDomainParticipant::delete_user_defined_subscriber
+    #[cfg_attr(kani, kani::proof)]
+    #[cfg_attr(kani, kani::stub(alloc::fmt::format, verif_support::fmt_format_stub))]
+    fn c36_delete_subscriber_with_reader_is_refused() {
+        let mut p = mk_participant();
+        push_topic(&mut p);
+        let k1: u8 = kani::any();
+        let h1 = group_handle(&p, k1, USER_DEFINED_READER_GROUP);
+        p.domain_participant.user_defined_subscriber_list.push(UserDefinedSubscriber::new(h1, SubscriberQos::const_default(), None, StatusMask::default()));
+        let rd = mk_reader_in(&p, k1, 0);
+        p.domain_participant.user_defined_subscriber_list[0].data_reader_list.push(rd);
+        let ph = p.domain_participant.instance_handle;
+        let r = p.delete_user_defined_subscriber(&ph, &h1);
+        assert!(code_of(&r) == 1, "C36: a subscriber that still contains a data reader cannot be deleted: PreconditionNotMet");
+        let l = &p.domain_participant.user_defined_subscriber_list;
+        assert!(l.len() == 1 && l[0].instance_handle == h1 && l[0].data_reader_list.len() == 1, "C36: a refused deletion changes nothing");
+        core::mem::forget(r);
+        core::mem::forget(p);
+    }
+
+    /// C36: delete_user_defined_topic.  Participant with topic "t" and one publisher that holds a writer on "t" (removed before the last call):
+    /// deleting "t" is PreconditionNotMet while the writer exists (topic still there), Ok otherwise (topic gone); deleting
+    /// an unknown topic name is AlreadyDeleted; through a wrong participant handle PreconditionNotMet; refused deletions
+    /// change nothing.
+    /// @props C36
+    /// @kind bounded
+    /// @tier thorough
+    /// @timeout 3000
+    /// @bounds 1 topic, 1 publisher, 1 data writer
+    /// @fn DcpsDomainParticipant::delete_user_defined_topic
+    #[cfg_attr(kani, kani::proof)]
+    #[cfg_attr(kani, kani::stub(alloc::fmt::format, verif_support::fmt_format_stub))]
+    fn c36_delete_topic_preconditions() {
+        let mut p = mk_participant();
+        push_topic(&mut p);
+        let h1 = group_handle(&p, 1, USER_DEFINED_WRITER_GROUP);
+        p.domain_participant.user_defined_publisher_list.push(PublisherEntity::new(PublisherQos::const_default(), h1, Vec::new(), None, StatusMask::default()));
+        let w = mk_writer_in(&p, 1, 0);
+        p.domain_participant.user_defined_publisher_list[0].data_writer_list.push(w);
+        let ph = p.domain_participant.instance_handle;
+        let r0 = p.delete_user_defined_topic(&h1, String::from("t"));
+        assert!(code_of(&r0) == 1 && p.domain_participant.locally_created_topic_list.len() == 1, "C36: deleting through another participant is PreconditionNotMet and changes nothing");
+        let r1 = p.delete_user_defined_topic(&ph, String::from("u"));
+        assert!(code_of(&r1) == 2 && p.domain_participant.locally_created_topic_list.len() == 1, "C36: an unknown topic is AlreadyDeleted");
+        let r2 = p.delete_user_defined_topic(&ph, String::from("t"));
+        assert!(code_of(&r2) == 1 && p.domain_participant.locally_created_topic_list.len() == 1, "C36: a topic still used by a data writer cannot be deleted and stays");
+        // once the writer is gone the topic can be deleted
+        let w = p.domain_participant.user_defined_publisher_list[0].data_writer_list.pop();
+        core::mem::forget(w);
+        let r3 = p.delete_user_defined_topic(&ph, String::from("t"));
+        assert!(code_of(&r3) == 0 && p.domain_participant.locally_created_topic_list.len() == 0, "C36: an unused topic is deleted");
+        core::mem::forget((r0, r1, r2, r3));
         core::mem::forget(p);
     }
